@@ -4,7 +4,7 @@
 //!
 //! * `stream`: `AlignedBoundaryStream::new(store, path, start, end, size, b'\n')`
 //!   over `ChunkStore` (own `ObjectStore`, chunked GET answers): every file of
-//!   length <= 9 (quick) / <= 12 (thorough) over {'a','\n','\r'} x every cut of
+//!   length <= 10 (quick) / <= 13 (thorough) over {'a','\n','\r'} x every cut of
 //!   [0,len) into 2 and 3 consecutive ranges (empty ranges included) x chunk
 //!   modes {1,2,3,whole, 2+trailing empty chunk}.
 //! * `lookahead`: files with one line longer than `END_SCAN_LOOKAHEAD`, every
@@ -47,6 +47,13 @@ use std::sync::Arc;
 use store::ChunkStore;
 
 const L: usize = END_SCAN_LOOKAHEAD as usize;
+
+/// at most two written-out samples per part
+static SAMPLES: [std::sync::atomic::AtomicUsize; 3] =
+    [std::sync::atomic::AtomicUsize::new(0), std::sync::atomic::AtomicUsize::new(0), std::sync::atomic::AtomicUsize::new(0)];
+fn take_sample(part: usize) -> bool {
+    SAMPLES[part].fetch_add(1, std::sync::atomic::Ordering::Relaxed) < 2
+}
 
 #[derive(Serialize, Deserialize, Clone, Copy, Debug, Hash, PartialEq, Eq)]
 enum Fmt {
@@ -218,7 +225,7 @@ fn has_straddle(file: &[u8], cuts: &[usize]) -> bool {
 }
 
 fn explore_streams(ctx: &Ctx) {
-    let max_len = ctx.pick(9, 12);
+    let max_len = ctx.pick(10, 13);
     ctx.set_extra(
         "bounds_stream",
         json!({"alphabet": "a, \\n, \\r", "max_file_len": max_len, "ranges": "every 0<=c1<=len (2 ranges) and 0<=c1<=c2<=len (3 ranges), empty ranges included",
@@ -259,7 +266,7 @@ fn explore_streams(ctx: &Ctx) {
                             if !v.ownership_rule_holds {
                                 rule_mismatch += 1;
                             }
-                            if st && cuts.len() == 2 && chunk == 2 && n >= 6 && ctx.want_sample() {
+                            if st && cuts.len() == 2 && chunk == 2 && n >= 6 && SAMPLES[0].load(std::sync::atomic::Ordering::Relaxed) < 2 && take_sample(0) {
                                 let c = Case::Stream { file: String::from_utf8(file.clone()).unwrap(), cuts: cuts.clone(), chunk, trailing_empty: te };
                                 let outs: Vec<String> = outs.iter().map(|o| show(o.as_ref().unwrap())).collect();
                                 ctx.sample(json!({"case": c, "outputs": outs}));
@@ -397,7 +404,7 @@ fn explore_lookahead(ctx: &Ctx) {
             }
             match check_split(&file, &b, &outs) {
                 Ok(_) => {
-                    if needs_overflow && sp.len() == 2 && chunk == 7 && ctx.want_sample() {
+                    if needs_overflow && sp.len() == 2 && chunk == 7 && take_sample(1) {
                         let c = Case::Lookahead { pre, long, post, final_nl, cuts: sp.clone(), chunk };
                         let lens: Vec<usize> = outs.iter().map(|o| o.as_ref().unwrap().len()).collect();
                         ctx.sample(json!({"case": c, "file_len": n, "output_lengths": lens}));
@@ -682,7 +689,7 @@ fn explore_scans(ctx: &Ctx) {
                 if st.straddle && st.rows > 0 {
                     ctx.count("scan_cases_with_straddling_boundary", 1);
                     ctx.nontrivial(&("scan", *fmt as u8, files, header, tp, ordered));
-                    if files.len() == 2 && *chunk == 1 && ctx.want_sample() {
+                    if files.len() == 2 && *chunk == 1 && take_sample(2) {
                         ctx.sample(serde_json::to_value(c).unwrap());
                     }
                 }
@@ -808,9 +815,6 @@ fn explore_groups(ctx: &Ctx) {
 fn explore(ctx: &Ctx) {
     let only = std::env::var("C26_PART").ok();
     let want = |p: &str| only.as_deref().map(|o| o == p).unwrap_or(true);
-    if only.is_some() {
-        ctx.mark_capped("C26_PART restricts the run to one part");
-    }
     if want("groups") {
         explore_groups(ctx);
     }
@@ -822,6 +826,10 @@ fn explore(ctx: &Ctx) {
     }
     if want("stream") {
         explore_streams(ctx);
+    }
+    if only.is_some() {
+        // development aid: a partial run never claims to be exhaustive
+        ctx.mark_capped("C26_PART restricts the run to one part");
     }
 }
 
